@@ -63,10 +63,18 @@ class IsoTpStateMachine:
             frame_type, telegram_len = bitstruct.unpack("u4u4", data)
             assert isinstance(telegram_len, int)
 
-            self.on_single_frame(telegram_idx, data[1:1 + telegram_len])
-            self.on_telegram_complete(telegram_idx, data[1:1 + telegram_len])
+            payload_pos = 1
+            if telegram_len == 0 and len(data) > 8:
+                # CAN-FD frames with more than 8 bytes specify the
+                # length of single frame telegrams in the second byte
+                telegram_len = data[1]
+                payload_pos = 2
+            sf_payload = data[payload_pos:payload_pos + telegram_len]
 
-            yield (rx_id, data[1:1 + telegram_len])
+            self.on_single_frame(telegram_idx, sf_payload)
+            self.on_telegram_complete(telegram_idx, sf_payload)
+
+            yield (rx_id, sf_payload)
 
         elif frame_type == IsoTp.FRAME_TYPE_FIRST:
             frame_type, telegram_len = bitstruct.unpack("u4u12", data)
